@@ -12,6 +12,7 @@ use std::collections::*;
 struct S<T> {
     /// field doc
     a: Option<T>,
+    /// a documented marker: erased whatever the docs feature says
     b: core::marker::PhantomData<T>,
     #[codec(compact)]
     c: u64,
@@ -25,7 +26,12 @@ struct S<T> {
 #[repr(u8)]
 enum E {
     /// variant doc
-    A(u8, String),
+    A(
+        u8,
+        /// documented marker inside a variant
+        core::marker::PhantomData<bool>,
+        String,
+    ),
     B {
         /// named field doc
         x: [i128; 3],
